@@ -183,3 +183,15 @@ Proof.
   2:{ intros a b. split; [apply N.eqb_eq|intros ->; apply N.eqb_refl]. }
   destruct (c' =? c) eqn:E; auto. apply N.eqb_eq in E. subst. rewrite Ec. reflexivity.
 Qed.
+
+(* msgPStorage.Update touches the store only *)
+Lemma store_writeback_frame s qn u d :
+  conns (store_writeback s qn u d) = conns s /\ queues (store_writeback s qn u d) = queues s /\
+  heap (store_writeback s qn u d) = heap s /\ exchanges (store_writeback s qn u d) = exchanges s /\
+  srv_ready (store_writeback s qn u d) = srv_ready s /\ srv_unacked (store_writeback s qn u d) = srv_unacked s /\
+  srv_total (store_writeback s qn u d) = srv_total s.
+Proof. unfold store_writeback. destruct (_ && _ && _); cbn; repeat split; reflexivity. Qed.
+Lemma get_queue_store_writeback s qn u d q : get_queue (store_writeback s qn u d) q = get_queue s q.
+Proof. unfold get_queue. destruct (store_writeback_frame s qn u d) as (_ & -> & _). reflexivity. Qed.
+Lemma get_msg_store_writeback s qn u d x : get_msg (store_writeback s qn u d) x = get_msg s x.
+Proof. unfold get_msg. destruct (store_writeback_frame s qn u d) as (_ & _ & -> & _). reflexivity. Qed.
